@@ -344,6 +344,12 @@ def asIntegerCast : Prim α → Except CastErr Int
   | .number n => if floatNe (fract n) (ofInt 0) then .error .wrongArgument else .ok (toI64 n)
   | _ => .error .wrongArgument
 
+/-- proposed repair `fixes/C18-integer-cast-exact.diff`: `i64::try_from(n)` instead of `n as i64` - a
+`PositiveInteger` from 2^63 on is an error (`Other` in the Rust), not a wrapped negative number -/
+def asIntegerCastX : Prim α → Except CastErr Int
+  | .pint n => if n < 9223372036854775808 then .ok (n : Int) else .error .wrongArgument
+  | p => asIntegerCast p
+
 /-- `as_usize_cast` (64-bit target: `usize` = `u64`) -/
 def asUsizeCast [ToU64 α] : Prim α → Except CastErr Nat
   | .pint n => .ok n
